@@ -172,7 +172,8 @@ class Prov:
         if l in self._memo:
             return self._memo[l]
         if l in self._stack:
-            return ("unknown", "cycle:_%d" % l)
+            # loop-carried value: keep its identity as an opaque local
+            return ("path", ("local", l), ())
         if 1 <= l <= body.argc and not self.d.whole.get(l):
             if body.is_closure and l == 1:
                 t = ("path", ("env",), ())
